@@ -712,12 +712,12 @@ srctie.wire(globals(), 'C20')
 
 # --- deep theorems (Rounding5: float-level bounds in the standard model, wired by the lead)
 PROOF_MODULES = PROOF_MODULES + [m for m in ['Compute.Lemmas.LogRounding', 'Compute.Lemmas.Rounding5', 'Compute.Props.Rounding5'] if m not in PROOF_MODULES]
-REQUIRED_THEOREMS = REQUIRED_THEOREMS + ['Cv.Rounding5.rbf_near', 'Cv.Rounding5.rbf_error', 'Cv.Rounding5.rbf_error_explicit', 'Cv.Rounding5.rbf_pos', 'Cv.Rounding5.rq_near', 'Cv.Rounding5.rq_error', 'Cv.Rounding5.rq_pos']
+REQUIRED_THEOREMS = REQUIRED_THEOREMS + ['Cv.Rounding5.rbf_near', 'Cv.Rounding5.rbf_error', 'Cv.Rounding5.rbf_error_explicit', 'Cv.Rounding5.rbf_pos_stdmodel', 'Cv.Rounding5.rq_near', 'Cv.Rounding5.rq_error', 'Cv.Rounding5.rq_pos_stdmodel']
 NOT_PROVED = list(NOT_PROVED) + ['floating-point rounding of the scalar forms IS proved in the standard model with libm exp/pow of relative error <= u_f (Props/Rounding5): c K <= computed <= K/c with c = e^(-gamma_9 A)(1-u_f)(1-u) (RBF, A = (x-y)^2/(2 l^2)) resp. ((1-u)^11)^alpha (1-u_f)(1-u) (RQ), and computed > 0; the matrix forms and k <= var are oracle only']
 
 # --- deep theorems (Rounding6: end-to-end residual / backward-error bounds in the standard model, wired by the lead)
 PROOF_MODULES = PROOF_MODULES + [m for m in ['Compute.Lemmas.Rounding6', 'Compute.Props.Rounding6'] if m not in PROOF_MODULES]
-REQUIRED_THEOREMS = REQUIRED_THEOREMS + ['Cv.Rounding6.rbf_matrix_near', 'Cv.Rounding6.rbf_matrix_range', 'Cv.Rounding6.rq_matrix_near', 'Cv.Rounding6.powi_two_idem', 'Cv.Rounding6.rbf_le_var']
+REQUIRED_THEOREMS = REQUIRED_THEOREMS + ['Cv.Rounding6.rbf_matrix_near', 'Cv.Rounding6.rbf_matrix_range_stdmodel', 'Cv.Rounding6.rq_matrix_near', 'Cv.Rounding6.powi_two_idem', 'Cv.Rounding6.rbf_le_var']
 NOT_PROVED = list(NOT_PROVED) + ['matrix forms: with idempotent rounding powi(a,2) = a*a holds at the rounded scalar type (powi_two_idem), so every Gram entry is the scalar form and satisfies the two-sided bound (RBF: e^(-gamma_7 A)(1-u_f)(1-u)), is > 0, and under the explicit extra hypothesis ExpLeOne (libm exp <= 1 on x <= 0) is <= var(1+u) (Props/Rounding6); symmetry bit for bit and psd of the f64 Gram matrix remain oracle/searched']
 
 # --- review d: ONE coherent statement of what is and is not proved (replaces the NOT_PROVED entries accumulated above;
